@@ -725,6 +725,18 @@ class ModelWorld(engine.World):
             attrs[name] = json_norm(val)
           except (TypeError, ValueError):
             pass
+      # Initializer objects the layer was configured with (a rebuilt layer
+      # must initialise like the original).
+      for name in ("kernel_initializer", "bias_initializer",
+                   "scale_initializer"):
+        init = getattr(layer, name, None)
+        if init is not None and hasattr(init, "get_config") and not isinstance(
+            init, str):
+          try:
+            attrs[name] = {"class": type(init).__name__,
+                           "config": json_norm(init.get_config())}
+          except (TypeError, ValueError):
+            pass
       out.append([type(layer).__name__, attrs])
     return out
 
@@ -1264,6 +1276,21 @@ class ModelWorld(engine.World):
           elif kind == "layer":
             # Shorthand arguments must be rebuilt into equivalent objects.
             a_parts, b_parts = [], []
+            for attr in ("kernel_initializer", "bias_initializer",
+                         "scale_initializer"):
+              ia, ib = getattr(obj, attr, None), getattr(obj2, attr, None)
+              if ia is None or isinstance(ia, str) or not hasattr(
+                  ia, "get_config"):
+                continue
+              ca = json_norm({"class": type(ia).__name__,
+                              "config": ia.get_config()})
+              cb = (json_norm({"class": type(ib).__name__,
+                               "config": ib.get_config()})
+                    if ib is not None and hasattr(ib, "get_config") and
+                    not isinstance(ib, str) else None)
+              if ca != cb:
+                a_parts.append(np.float64(1.0))
+                b_parts.append(np.float64(-1.0))
             for attr, vname in (("kernel_regularizer", "kernel"),
                                 ("bias_regularizer", "bias")):
               ra, rb = getattr(obj, attr, None), getattr(obj2, attr, None)
